@@ -1,6 +1,8 @@
 import BevySyncModel.Slice.Skin
 import BevySyncModel.Generated.Sync
 import BevySyncModel.Generated.SkinMapper
+import BevySyncModel.Generated.Snap
+import BevySyncModel.Proofs.World
 /-! # C16 — skinned-mesh joints and bind poses are translated between peers -/
 namespace BevySync
 namespace Props
@@ -12,6 +14,34 @@ debounced under the name its token is stored with (D5 repaired) -/
 theorem C16_code_tie :
     Generated.skinMapperFields.map (·.1) = ["inverse_bindposes", "joints"] ∧
     Generated.skinLoopsSkipUnknown = true ∧ Generated.skinTokenNameConsistent = true := by decide
+
+/-- (tie) the joining snapshot: `build_full_sync` moves every `EntitySpawn` in front of every component before anything else is
+appended (repair of D21), spawns precede components inside `check_entity_components`, the client ignores components of
+unknown entities only -/
+theorem C16_snapshot_order_tie :
+    Generated.snapEntitiesFirst = true ∧ Generated.snapSpawnBeforeComponents = true ∧
+    Generated.snapBuildOrder = true ∧ Generated.snapClientIgnoresUnknownEntity = true := by decide
+
+/-- **through the joining snapshot** (`Slice/World.lean`): when the joiner handles any component of the snapshot — the
+`SkinnedMesh` in particular — it already knows **every** entity the host tracks, whatever the archetypes and their order and
+however the ordered channel cuts the snapshot into frames; the translation loop of `C16_translate`, which runs when the
+component is applied at the end of that frame, therefore finds every joint (`e2u` / `u2e` total on the joints), and the
+joints arrive in number, order and identity. -/
+theorem C16_snapshot_joints_known (w : WorldSnap.World) (hw : WorldSnap.WF w) (pre post : List WorldSnap.Msg) (m : WorldSnap.Msg)
+    (h : WorldSnap.snapshot w = pre ++ m :: post) (hm : WorldSnap.isSpawn m = false) :
+    (WorldSnap.applyAll {} pre).ents = WorldSnap.uuids w :=
+  WorldSnap.all_known_when_handled w hw pre post m h hm
+
+/-- **D21 (repaired), kernel-checked on the order before the repair**: the skinned entity 1 sits in an older archetype than its
+joint 2; in the list as `check_entity_components` pushes it the component of 1 precedes the spawn of 2, so a joiner that
+receives the first two messages in one frame and the rest in the next applies the component knowing entity 1 only -/
+example :
+    let w : WorldSnap.World :=
+      [{ types := [9], ents := [{ uuid := 1, vals := [(9, 90)], parent := none }] },
+       { types := [7], ents := [{ uuid := 2, vals := [(7, 70)], parent := none }] }]
+    WorldSnap.snapshotG false w = [.spawn 1, .comp 1 9 90, .spawn 2, .comp 2 7 70] ∧
+    (WorldSnap.applyAll {} [.spawn 1, .comp 1 9 90]).ents = [1] ∧
+    WorldSnap.snapshot w = [.spawn 1, .spawn 2, .comp 1 9 90, .comp 2 7 70] := by decide
 
 theorem filterMap_known {α β : Type} (f : α → Option β) (g : α → β) (l : List α) (h : ∀ a ∈ l, f a = some (g a)) :
     l.filterMap f = l.map g := by
